@@ -173,14 +173,48 @@ def validate(ctx, logs, chunk_events=120000):
     return len(execs), verdicts
 
 
-def run_units(ctx, exe, units, tag, timeout=1500):
+def run_batches(ctx, exe, args, total, log_path, timeout, env, max_deaths=12):
+    """vlib.run_batches with a circuit breaker: a batch is abandoned (not resumed) after a process time-out, an ASan report
+    flood or max_deaths process deaths - the executions recorded so far are still validated."""
+    k, sums, deaths = 0, [], []
+    open(log_path, "w").close()
+    while k < total:
+        rc, so, se = vlib.run_exe(exe, list(args) + ["--from", k, "--to", total, "--log", log_path], timeout=timeout, env=env)
+        summ = None
+        for ln in so.splitlines():
+            if ln.startswith("{"):
+                try:
+                    summ = json.loads(ln)
+                except Exception:
+                    pass
+        if summ:
+            sums.append(summ)
+        d = vlib.classify_death(rc, se)
+        if d is None:
+            break
+        x = vlib.last_exec_id(log_path)
+        if x is None or x < k:
+            x = k
+        d["x"] = x
+        deaths.append(d)
+        with open(log_path, "a") as f:
+            f.write('\n{"e":"Aborted","x":%d}\n' % x)
+        if rc == -9 or "asan flood" in se or len(deaths) >= max_deaths:
+            ctx.rep.note("batch %s abandoned at unit %d of %d after %d process deaths (last: %s)"
+                         % (os.path.basename(log_path), x, total, len(deaths), "time-out" if rc == -9 else d.get("event")))
+            break
+        k = x + 1
+    return sums, deaths
+
+
+def run_units(ctx, exe, units, tag, timeout=900):
     up = os.path.join(ctx.work, "units_%s.json" % tag)
     json.dump(units, open(up, "w"))
     lp = os.path.join(ctx.work, "log_%s.ndjson" % tag)
     op = os.path.join(ctx.work, "obs_%s.ndjson" % tag)
     if os.path.exists(op):
         os.remove(op)
-    sums, deaths = vlib.run_batches(ctx, exe, ["--units", up, "--obs", op], len(units), lp, timeout=timeout, env=ASAN_ENV)
+    sums, deaths = run_batches(ctx, exe, ["--units", up, "--obs", op], len(units), lp, timeout=timeout, env=ASAN_ENV)
     ctx.rep.evaluations += sum(s.get("execs", 0) for s in sums)
     obs = {}
     if os.path.exists(op):
@@ -398,7 +432,7 @@ def run(ctx):
                                    unit=u, _lines=logs[x]))
     for d in deaths_b:
         u = units[d["x"]] if d["x"] < len(units) else {}
-        if d["event"] in ("Hang", "Deadlock"):
+        if d["event"] in ("Hang", "Deadlock") and "no terminal signal" in d.get("stderr_tail", ""):
             violations.append(dict(engine="bulk", component="bulk", event="Hang", shape=u.get("shape"), n=u.get("n"), sched=u.get("sched"),
                                    what="no terminal signal within 30 s: %s n=%s on %s" % (u.get("shape"), u.get("n"), u.get("sched")), unit=u,
                                    detail=d.get("stderr_tail", "")))
@@ -461,7 +495,7 @@ def run(ctx):
                                        unit={k: v for k, v in u.items() if k != "case"}, _lines=lg[x]))
         for d in dth:
             u = us[d["x"]] if d["x"] < len(us) else {}
-            if d["event"] in ("Hang", "Deadlock"):
+            if d["event"] in ("Hang", "Deadlock") and "no terminal signal" in d.get("stderr_tail", ""):
                 violations.append(dict(engine="bulk", component="find_if", event="Hang", policy=u.get("pol"), n=u.get("n"), sched=u.get("sched"),
                                        what="find_if(%s) n=%s: no terminal signal within 30 s" % (u.get("pol"), u.get("n")), unit={k: v for k, v in u.items() if k != "case"}))
             else:
